@@ -351,6 +351,7 @@ def check_C18(tier, seed):
 
 
 OPTION_SETS_QUICK = [["-fwide-types"], ["-fcompound-names"], ["-findirect-choice"], ["-fno-include-deps"], ["-fincludes-quoted"],
+                     ["-no-gen-PER"], ["-no-gen-OER"], ["-no-gen-PER", "-fwide-types"],
                      ["-fwide-types", "-fcompound-names", "-findirect-choice", "-fincludes-quoted"]]
 
 
@@ -401,6 +402,9 @@ def check_C13(tier, seed):
                 if s["id"] not in refbytes:
                     continue
                 syn = s["plan"][1]["syn"]
+                # "disabling an unused codec": the disabled codec is not used; the others must not change
+                if (syn == "UPER" and "-no-gen-PER" in flags) or (syn == "OER" and "-no-gen-OER" in flags):
+                    continue
                 sess.append({"id": len(sess) + 1, "ty": s["ty"], "val": s["val"],
                              "plan": [{"a": "Build", "slot": 1}, {"a": "Adopt", "syn": syn, "bytes": refbytes[s["id"]]},
                                       {"a": "Encode", "slot": 1, "syn": syn},
